@@ -1,6 +1,7 @@
 package main
 
 import (
+	"regexp"
 	"fmt"
 	"go/types"
 	"os"
@@ -304,11 +305,17 @@ func (f *Frame) applyContract(c *cursor, site ssa.Instruction, callee *ssa.Funct
 	bindResultNames(env2, callee, res)
 	var ens []Term
 	for _, en := range append(append([]*Clause{}, spec.Ensures...), spec.Assumes...) {
+		// a clause over the callee's own locals or sites (a decision table) says
+		// nothing a caller can use; it is checked where the callee is verified
+		if mentionsSite(en.Expr) {
+			continue
+		}
 		t, err := env2.evalBool(en.Expr)
 		if err != nil {
-			// a clause over the callee's own locals or sites (a decision table) says
-			// nothing a caller can use; it is checked where the callee is verified,
-			// and a clause that resolves nowhere is a spec error there
+			if m := unknownNameRe.FindStringSubmatch(err.Error()); m != nil && isLocalOf(callee, m[1]) {
+				continue
+			}
+			e.fail("ensures of %s: %v", key, err)
 			continue
 		}
 		ens = append(ens, t)
@@ -849,6 +856,45 @@ func nilOK(sp *FuncSpec, name string) bool {
 	for _, n := range sp.NilOK {
 		if n == name {
 			return true
+		}
+	}
+	return false
+}
+
+var unknownNameRe = regexp.MustCompile(`unknown name "([^"#]+)(#[0-9]+)?"`)
+
+func mentionsSite(x *SExpr) bool {
+	if x == nil {
+		return false
+	}
+	if x.Op == "call" && len(x.Args) > 0 && x.Args[0] != nil && x.Args[0].Op == "ident" && (x.Args[0].Name == "site" || x.Args[0].Name == "sitearg") {
+		return true
+	}
+	if x.Op == "call" && (x.Name == "site" || x.Name == "sitearg") {
+		return true
+	}
+	for _, a := range x.Args {
+		if mentionsSite(a) {
+			return true
+		}
+	}
+	return false
+}
+
+// isLocalOf: name is a local variable (not a parameter) of fn.
+func isLocalOf(fn *ssa.Function, name string) bool {
+	for _, p := range fn.Params {
+		if p.Name() == name {
+			return false
+		}
+	}
+	for _, b := range fn.Blocks {
+		for _, in := range b.Instrs {
+			if x, ok := in.(*ssa.DebugRef); ok && x.Object() != nil && x.Object().Name() == name {
+				if v, isVar := x.Object().(*types.Var); isVar && !v.IsField() {
+					return true
+				}
+			}
 		}
 	}
 	return false
